@@ -174,8 +174,9 @@ func TestVerifC02Hostile(t *testing.T) {
 	verifx.Summary(map[string]any{"scripts": n, "accepted": accepted, "rejected": rejected, "samples": samples})
 }
 
-const c02TableA = "route add A1 /foo http://a1:80/\nroute add A2 / http://a2:80/\nroute add A3 h.com/ http://a3:80/"
-const c02TableB = "route add B1 /foo/bar http://b1:80/\nroute add B2 / http://b2:80/\nroute add B3 h.com/x http://b3:80/\nroute add B4 /zz http://b4:80/"
+// A has glob hosts, B has only plain ones; every probe has a route in both
+const c02TableA = "route add A1 /foo http://a1:80/\nroute add A2 / http://a2:80/\nroute add A3 h.com/ http://a3:80/\nroute add A4 *.g.com/ http://a4:80/\nroute add A5 *.com:8443/x http://a5:80/"
+const c02TableB = "route add B1 /foo/bar http://b1:80/\nroute add B2 / http://b2:80/\nroute add B3 h.com/x http://b3:80/\nroute add B4 x.g.com/ http://b4:80/\nroute add B5 y.com:8443/x http://b5:80/"
 
 func TestVerifC02Swap(t *testing.T) {
 	writes := verifx.EnvInt("VERIF_WRITES", 60)
@@ -198,7 +199,7 @@ func TestVerifC02Swap(t *testing.T) {
 	old := GetTable()
 	defer SetTable(old)
 	install("A")
-	probes := []struct{ host, path string }{{"other.com", "/foo/bar/x"}, {"other.com:80", "/zzz"}, {"H.com", "/x/y"}}
+	probes := []struct{ host, path string }{{"other.com", "/foo/bar/x"}, {"other.com:80", "/zzz"}, {"H.com", "/x/y"}, {"x.g.com", "/"}, {"y.com:8443", "/x/1"}}
 	var wg sync.WaitGroup
 	start := make(chan struct{})
 	for g := 0; g < readers; g++ {
@@ -218,6 +219,9 @@ func TestVerifC02Swap(t *testing.T) {
 						res[k] = "none"
 					} else {
 						res[k] = tg.Service[:1]
+						if want := fmt.Sprint(k + 1); tg.Service[1:] != want {
+							res[k] = "wrong:" + tg.Service // the probe must hit its own route of the version
+						}
 					}
 				}
 				tr.Add(map[string]any{"ev": "RRet", "g": g, "res": res})
